@@ -725,6 +725,88 @@ func runC20(c *Ctx) error {
 		add("env-near-miss", "load;E:BHS_HISTORY_MAX=5")
 		add("file-cwd", "load;F:"+keys[0].Key+"="+c20Pool(keys[0], false)[0]+";A:cwd")
 		add("file-long", "load;F:"+last.Key+"="+c20Pool(last, false)[0]+";A:long")
+		// WHICH file is read: the selected file accompanied by same-stem siblings in other formats that give
+		// DIFFERENT values to the same key and a value to a key the selected file omits (decoys: no effect at
+		// all), for each way of selecting the file; selected files in the other formats and with unusual
+		// extensions (.yml; none / unknown: refused at HEAD)
+		{
+			simple := func(k c20Key) (string, string, string) {
+				switch k.Type {
+				case "bool":
+					not := "true"
+					if k.Default == "true" {
+						not = "false"
+					}
+					return not, k.Default, not
+				case "int":
+					return "7", "4321", "99"
+				case "uint16":
+					return "6543", "1", "99"
+				case "duration":
+					return "1m30s", "36h0m0s", "45s"
+				case "enum":
+					p := c20Pool(k, false)
+					return p[0], p[1], p[len(p)-1]
+				}
+				if k.Key == "logging.level" {
+					return "info", "warn", "error"
+				}
+				return "verif-A", "verif-D", "verif-E"
+			}
+			var sample []int
+			if th {
+				for i := range keys {
+					sample = append(sample, i)
+				}
+			} else {
+				seenT := map[string]bool{}
+				for i, k := range keys { // the first key of every type, and the last key
+					if !seenT[k.Type] || i == len(keys)-1 {
+						seenT[k.Type] = true
+						sample = append(sample, i)
+					}
+				}
+			}
+			allExts := []string{"json", "toml", "yaml", "yml", "properties", "env", "ini"}
+			for _, ki := range sample {
+				k, o := keys[ki], keys[(ki+1)%len(keys)]
+				a, b, cval := simple(k)
+				ov, _, _ := simple(o)
+				ev := c20EnvName(k.Key)
+				decoys := func(sel string, exts ...string) string {
+					var d []string
+					for _, e := range exts {
+						if e != sel {
+							d = append(d, "D:"+e+":"+k.Key+"="+b, "D:"+e+":"+o.Key+"="+ov)
+						}
+					}
+					return strings.Join(d, ";")
+				}
+				for _, mode := range []string{"flag", "long", "cwd", "env"} {
+					add("decoy-siblings:"+mode, "load;F:"+k.Key+"="+a+";"+decoys("yaml", allExts...)+";A:"+mode)
+					if mode == "cwd" {
+						continue // the default file is config.yaml and nothing else
+					}
+					add("decoy-siblings:"+mode, "load;F:"+k.Key+"="+a+";X:yml;"+decoys("yml", "yaml", "json")+";A:"+mode)
+					add("decoy-siblings:"+mode, "load;F:"+k.Key+"="+a+";X:json;"+decoys("json", "yaml", "toml", "yml")+";A:"+mode)
+					add("decoy-siblings:"+mode, "load;F:"+k.Key+"="+a+";X:toml;"+decoys("toml", "json", "yaml")+";A:"+mode)
+				}
+				for _, e := range allExts {
+					if e != "yaml" {
+						add("decoy-single", "load;F:"+k.Key+"="+a+";D:"+e+":"+k.Key+"="+b)
+						add("selected-format:"+e, "load;F:"+k.Key+"="+a+";X:"+e)
+					}
+				}
+				add("decoy-siblings+env", "load;E:"+ev+"="+cval+";F:"+k.Key+"="+a+";"+decoys("yaml", "json", "toml", "yml"))
+				add("decoy-siblings+env", "load;E:"+c20EnvName(o.Key)+"="+ov+";F:"+k.Key+"="+a+";X:yml;"+decoys("yml", "yaml"))
+				add("decoy-only-cwd", "load;"+decoys("", "json", "toml", "yml")+";A:cwd")
+				add("cwd-not-default-name", "load;F:"+k.Key+"="+a+";X:yml;A:cwd")
+				for _, e := range []string{"none", "conf", "txt"} {
+					add("selected-ext-unknown", "load;F:"+k.Key+"="+a+";X:"+e)
+					add("selected-ext-unknown", "load;F:"+k.Key+"="+a+";X:"+e+";D:yaml:"+k.Key+"="+b+";A:long")
+				}
+			}
+		}
 		// the documented example file as the selected file (every key in the file), alone and under an env override
 		if ex := c20ExampleItems(types); len(ex) > 0 {
 			add("example-file", "load;"+strings.Join(ex, ";"))
